@@ -1,7 +1,7 @@
 #!/bin/sh
 # usage: evalshards.sh <rundir>
 cd $1
-for d in shard_*; do (cd $d && cp /verif/coq/Run/PubMonitorCases.v cases.v && coqc -Q /verif/coq Verif -Q . Run observed.v && coqc -Q /verif/coq Verif -Q . Run cases.v > out.txt 2>&1) & done
+for d in shard_*; do (cd $d && cp ${COQDIR:-/verif/coq}/Run/PubMonitorCases.v cases.v && coqc -Q ${COQDIR:-/verif/coq} Verif -Q . Run observed.v && coqc -Q ${COQDIR:-/verif/coq} Verif -Q . Run cases.v > out.txt 2>&1) & done
 wait
 python3 - $1 <<'P'
 import re,json,glob,sys
